@@ -31,6 +31,7 @@ type replayRec struct {
 	Group  *groupCfg       `json:"group,omitempty"`
 	Stress *stressCfg      `json:"stress,omitempty"`
 	RC     *rcCfg          `json:"rcycle,omitempty"`
+	Disc   *discCfg        `json:"disc,omitempty"`
 	Detail json.RawMessage `json:"detail,omitempty"`
 }
 
@@ -179,6 +180,32 @@ func reportRC(c *vf.Ctx, r rcResult) {
 	}
 }
 
+func reportDisc(c *vf.Ctx, r discResult) {
+	c.Count("evaluations", 1)
+	c.Count("disc_scenarios", 1)
+	c.Count("disc_scenarios:"+r.Class, 1)
+	for k, v := range r.Counts {
+		c.Count(k, v)
+	}
+	for _, p := range r.Pairs {
+		c.Distinct("disc_kind_phase", p)
+	}
+	if len(r.Findings) == 0 {
+		c.Distinct("nontrivial", "disc/"+r.Shape)
+		if c.WantSample() && r.Class == "reent" && strings.Contains(r.Shape, "shutdown-waiting") {
+			c.Sample(map[string]any{"disc": r.Cfg, "shape": r.Shape, "steps": r.Steps})
+		}
+	}
+	seen := map[string]bool{}
+	for _, f := range r.Findings {
+		if seen[f.FP] {
+			continue
+		}
+		seen[f.FP] = true
+		c.Violation(f.FP, f.What+fmt.Sprintf(" [discipline scenario %d seed %d: %s]", r.Cfg.Idx, r.Cfg.Seed, r.Shape), replayRec{Mode: "disc", Disc: &r.Cfg, Detail: detail(r)})
+	}
+}
+
 func reportStress(c *vf.Ctx, r stressResult) {
 	if r.Blind != "" {
 		c.Count("structural_rules_blind", 1)
@@ -285,6 +312,23 @@ func child(c *vf.Ctx) {
 				break
 			}
 		}
+	case "disc":
+		lo, hi := atoi(c.ChildArgs[0]), atoi(c.ChildArgs[1])
+		bad := 0
+		for i := lo; i < hi && bad < 3; i++ { // a hang leaves parked goroutines behind: a few findings are enough
+			c.Mark(fmt.Sprintf("disc %d", i))
+			r := runDisc(discCfg{Seed: c.Seed, Idx: i})
+			reportDisc(c, r)
+			if len(r.Findings) > 0 {
+				bad++
+			}
+		}
+	case "disc1":
+		var cfg discCfg
+		json.Unmarshal([]byte(c.ChildArgs[0]), &cfg)
+		reportDisc(c, runDisc(cfg))
+	case "taskpanic":
+		runTaskPanicChild(c, atoi(c.ChildArgs[0]))
 	case "stress":
 		lo, hi, race := atoi(c.ChildArgs[0]), atoi(c.ChildArgs[1]), c.ChildArgs[2] == "race"
 		for i := lo; i < hi; i++ {
@@ -489,6 +533,12 @@ func run(c *vf.Ctx) {
 			b, _ := json.Marshal(r.Stress)
 			res := runChild(c, vf.ChildOpts{Name: "stress1", Args: []string{string(b)}, Race: r.Stress.Race, Timeout: 3 * time.Minute})
 			reportRaces(c, res.Races)
+		case "disc":
+			b, _ := json.Marshal(r.Disc)
+			res := runChild(c, vf.ChildOpts{Name: "disc1", Args: []string{string(b)}, Timeout: time.Minute})
+			if res.TimedOut || res.ExitCode != 0 {
+				childDied(c, "discipline replay child", res)
+			}
 		case "race":
 			lo := 0
 			res := runChild(c, vf.ChildOpts{Name: "stress", Args: []string{strconv.Itoa(lo), "60", "race"}, Race: true, Timeout: 5 * time.Minute})
@@ -496,7 +546,7 @@ func run(c *vf.Ctx) {
 		}
 		return
 	}
-	c.SetRule("evaluations = gated schedules + group scenarios + stress runs. A gated schedule is one point of {kind: Submit window / dispatcher PopOrWait window / drain} x yield point x workers 1-4 x cancel-on-shutdown x preloaded running/queued tasks x release order x Submit-from-task x restart (thorough: whole space, quick: every core combination + seeded sample); it counts as non-trivial only if the gated goroutine was observed parked at the yield point (else the run is INCONCLUSIVE). Group scenarios are seeded trees (1-5 groups, 2-4 pools, gated tasks incl. tasks submitting tasks); every quiescent point checks every waiter. A stress run is non-trivial if at least one Submit call interval overlapped a Shutdown call interval (logical ticks). A restart-cycle scenario is one point of worker-count class x cancel-on-shutdown x panic-on-submit x tree shape (stand-alone, group chains of depth 1-3 with a sibling pool) x scripted/concurrent drain, with seeded 2-4 Shutdown->Start cycles, shutdown mode (pool.Shutdown with busy workers, Shutdown();Start(), Group.Shutdown of an ancestor), restart mode (Start, CreatePool same/new name), crowd size and gate order.")
+	c.SetRule("evaluations = gated schedules + group scenarios + stress runs. A gated schedule is one point of {kind: Submit window / dispatcher PopOrWait window / drain} x yield point x workers 1-4 x cancel-on-shutdown x preloaded running/queued tasks x release order x Submit-from-task x restart (thorough: whole space, quick: every core combination + seeded sample); it counts as non-trivial only if the gated goroutine was observed parked at the yield point (else the run is INCONCLUSIVE). Group scenarios are seeded trees (1-5 groups, 2-4 pools, gated tasks incl. tasks submitting tasks); every quiescent point checks every waiter. A stress run is non-trivial if at least one Submit call interval overlapped a Shutdown call interval (logical ticks). A restart-cycle scenario is one point of worker-count class x cancel-on-shutdown x panic-on-submit x tree shape (stand-alone, group chains of depth 1-3 with a sibling pool) x scripted/concurrent drain, with seeded 2-4 Shutdown->Start cycles, shutdown mode (pool.Shutdown with busy workers, Shutdown();Start(), Group.Shutdown of an ancestor), restart mode (Start, CreatePool same/new name), crowd size and gate order. A discipline scenario (disc.go) is one point of class {re-entrant task, self-wait probe, re-entrant subscriber/option, failing user code then further use, held results} x tree depth 0-3 x phase {running, ShutdownComplete.Wait / Start / own Group.Shutdown / ancestor Group.Shutdown parked on exactly the gated task} x 0-2 restart cycles x leading call kind (22 kinds, every kind leads in every phase and depth), 1-4 seeded calls per task; non-trivial if the task's calls all returned and the waiter was seen parked.")
 
 	var wg sync.WaitGroup
 	var mu sync.Mutex
@@ -548,7 +598,24 @@ func run(c *vf.Ctx) {
 			}
 		})
 	}
+	// ---- workload disciplines (disc.go): re-entrant tasks / subscribers / options, failing user code, held results
+	nDisc := c.Pick(2000, 20000)
+	for lo := 0; lo < nDisc; lo += 200 {
+		lo := lo
+		spawn(func() {
+			res := runChild(c, vf.ChildOpts{Name: "disc", Args: []string{strconv.Itoa(lo), strconv.Itoa(min(lo+200, nDisc))}, Timeout: 15 * time.Minute})
+			if res.TimedOut || res.ExitCode != 0 {
+				childDied(c, fmt.Sprintf("discipline child [%d..)", lo), res)
+			}
+		})
+	}
+	for i := 0; i < c.Pick(6, 24); i++ {
+		i := i
+		spawn(func() { runTaskPanicParent(c, i) })
+	}
 	wg.Wait() // group scenarios (their concurrent-creation half is timing sensitive) before the CPU-heavy stress children
+	discNotes(c)
+	c.Count("disc_kind_phase_pairs", c.DistinctCount("disc_kind_phase"))
 	// ---- restart cycles with crowds of watchers and every exported Wait* as observer
 	nRC := len(rcList(c.Seed, c.Quick()))
 	const rcChunk = 12
@@ -703,6 +770,33 @@ func run(c *vf.Ctx) {
 	c.Require("rc_crowd_watchers_parked", c.Pick(5000, 30000))
 	c.Require("rc_waits_parked_on_shut_down_group", c.Pick(300, 1800))
 	c.Require("rc_tasks_run_by_restarted_pool", c.Pick(5000, 30000))
+	// workload disciplines (disc.go); all counts are fixed by seed and tier, none depends on overlap
+	c.Require("disc_scenarios:reent", c.Pick(1300, 13000))
+	c.Require("disc_kind_phase_pairs", 180) // 22 call kinds x 10 phases, minus the group calls of stand-alone pools
+	for _, k := range dKinds {
+		c.Require("disc_reentrant_calls:"+k.name, c.Pick(60, 600))
+	}
+	for _, p := range discPhases {
+		c.Require("disc_reentrant_tasks_phase:"+p, c.Pick(60, 600))
+		c.Require("disc_reentrant_tasks_phase:restarted/"+p, c.Pick(25, 250))
+	}
+	c.Require("disc_waiters_parked_for_reentrant_task_then_returned", c.Pick(500, 5000))
+	c.Require("disc_pools_stopped_by_group_shutdown_that_waited_for_reentrant_task", c.Pick(1000, 10000))
+	c.Require("disc_restart_cycles:start", c.Pick(100, 1000))
+	c.Require("disc_restart_cycles:createpool-same-name", c.Pick(100, 1000))
+	c.Require("disc_selfwait_probes", c.Pick(150, 1500))
+	c.Require("disc_subscriber_scenarios", c.Pick(150, 1500))
+	c.Require("disc_subscriber_reentrant_calls:Group.CreatePool+CreateGroup", c.Pick(150, 1500))
+	c.Require("disc_option_reentrant_calls", c.Pick(150, 1500))
+	for _, k := range []string{"option-panics-in-CreatePool", "option-panics-in-New", "subscriber-panics-in-Submit", "task-recovers-own-panic", "CreatePool-duplicate-running-name"} {
+		c.Require("disc_failing_user_code_followed_by_further_use:"+k, c.Pick(30, 300))
+	}
+	c.Require("disc_unrecovered_task_panic_children", c.Pick(6, 24))
+	c.Require("disc_held_results_rechecked", c.Pick(300, 3000))
+	c.Require("disc_held_results_scribbled", c.Pick(80, 800))
+	c.Require("disc_held_argument_slices_reused", c.Pick(80, 800))
+	c.Require("disc_held_unsubscribe_called_twice", c.Pick(400, 4000))
+	c.Require("disc_held_handles_used_after_restart", c.Pick(80, 800))
 	c.Assume("a consistent runtime.Stack(all) snapshot in which every goroutine is parked on a sync primitive or channel (twice in a row, timer-free scenario) means no goroutine can ever run again")
 	c.Assume("the verif yield points are no-ops apart from blocking/yielding the calling goroutine")
 }
